@@ -38,6 +38,7 @@ func main() {
 	repo := flag.String("repo", "/repo", "")
 	prefix := flag.String("prefix", "W", "id prefix")
 	keep := flag.Int("keep", 4, "keep one mutant in N (by hash of file, offset and replacement)")
+	set := flag.Int("set", 4, "4 = wrong name (local, field, constant); 5 = wrong sibling: a method call replaced by another method of the same receiver with an identical signature, a package function by another function of that package with an identical signature")
 	flag.Parse()
 	cfg := &packages.Config{Mode: packages.LoadSyntax, Dir: *repo}
 	pkgs, err := packages.Load(cfg, ".", "./commit")
@@ -105,6 +106,63 @@ func main() {
 					}
 					return true
 				})
+				if *set == 5 {
+					ast.Inspect(fd.Body, func(n ast.Node) bool {
+						call, ok := n.(*ast.CallExpr)
+						if !ok {
+							return true
+						}
+						se, ok := call.Fun.(*ast.SelectorExpr)
+						if !ok {
+							return true
+						}
+						fobj, ok := info.Uses[se.Sel].(*types.Func)
+						if !ok {
+							return true
+						}
+						sig := fobj.Type().(*types.Signature)
+						same := func(o *types.Func) bool {
+							s2 := o.Type().(*types.Signature)
+							return types.Identical(types.NewSignatureType(nil, nil, nil, sig.Params(), sig.Results(), sig.Variadic()), types.NewSignatureType(nil, nil, nil, s2.Params(), s2.Results(), s2.Variadic()))
+						}
+						var sibs []*types.Func
+						if sel := info.Selections[se]; sel != nil && sel.Kind() == types.MethodVal {
+							ms := types.NewMethodSet(sel.Recv())
+							if _, isPtr := sel.Recv().(*types.Pointer); !isPtr {
+								if _, isIface := sel.Recv().Underlying().(*types.Interface); !isIface {
+									ms = types.NewMethodSet(types.NewPointer(sel.Recv()))
+								}
+							}
+							for i := 0; i < ms.Len(); i++ {
+								if o, ok := ms.At(i).Obj().(*types.Func); ok && o != fobj && o.Name() != fobj.Name() && (o.Exported() || o.Pkg() == pkg.Types) && same(o) {
+									sibs = append(sibs, o)
+								}
+							}
+						} else if sig.Recv() == nil && fobj.Pkg() != nil {
+							sc := fobj.Pkg().Scope()
+							for _, nm := range sc.Names() {
+								if o, ok := sc.Lookup(nm).(*types.Func); ok && o != fobj && (o.Exported() || o.Pkg() == pkg.Types) && same(o) {
+									sibs = append(sibs, o)
+								}
+							}
+						}
+						if len(sibs) == 0 {
+							return true
+						}
+						sort.Slice(sibs, func(i, j int) bool { return sibs[i].Name() < sibs[j].Name() })
+						// the sibling that follows in name order (cyclic)
+						pick := sibs[0]
+						for _, o := range sibs {
+							if o.Name() > fobj.Name() {
+								pick = o
+								break
+							}
+						}
+						add("call "+fobj.Name()+"→"+pick.Name(), se.Sel, pick.Name())
+						return true
+					})
+					continue
+				}
 				ast.Inspect(fd.Body, func(n ast.Node) bool {
 					id, ok := n.(*ast.Ident)
 					if !ok || written[id] || id.Name == "_" {
